@@ -146,6 +146,12 @@ def run(tier, seed):
             d = rng.choice(tree_dirs)
             patterns.append(rng.choice([d, "**/" + d.split("/")[-1], d[:-1] + "?"]))
         locs = [None] + rng.sample(LOCATIONS[1:], 3)
+        if rng.random() < 0.3:
+            # a pattern that names a directory ABOVE the root of one location: patterns are matched against the
+            # root-relative path, so it excludes nothing there either
+            above = [c for l in locs[1:] for c in l[1].split("/") if l[0] == "prefix"]
+            if above:
+                patterns.append(rng.choice(["**/%s/**", "**/%s/*", "*/%s/**"]) % rng.choice(above))
         names = []
         for j, loc in enumerate(locs):
             name = "t%dl%d" % (i, j)
